@@ -477,6 +477,9 @@ class PatView:
         self.nalts = [range(len(o["alts"])) for o in pat["ors"]]
         self.dispatch = [or_is_dispatch(pat, k) for k in range(len(pat["ors"]))]
         self.nnodes = len(pat["nodes"])
+        self.nchoices = 1
+        for r in self.nalts:
+            self.nchoices *= len(r)
 
 
 def _propagate(pat, hv, choice, seeds, derive=True, strict=False, max_viol=1):
